@@ -61,6 +61,7 @@ func c02Serve(c *c02Case, perm []int) c02Obs {
 			cur.PPath = ctx.Path()
 			cur.Names = append([]string{}, ctx.ParamNames()...)
 			cur.Values = append([]string{}, ctx.ParamValues()...)
+			rScribble(ctx)
 			return ctx.NoContent(http.StatusOK)
 		}
 	}
